@@ -112,7 +112,7 @@ class C09(Prop):
     k2_invs2 = {'prio', 'rows2'}         # the stage-2 T2 invariants (Inv/AllRun2.invs2_b) this property answers for on real snapshots
     k2_invs = {'rows'}          # the T2 hypothesis (Route.rows_ok) this property answers for on real configurations
     regions = {'quick': [('routers', 320), ('core', 80), ('block', 40), ('renege', 40), ('preempt', 40), ('prio_reroute', 30), ('jsq_preempt', 80), ('renege_jockey', 40),
-                         ('sched_reroute', 20), ('dyn', 30), ('all', 80)]}
+                         ('sched_reroute', 20), ('dyn', 30), ('all', 80), ('jsq_sched', 80)]}
     rule = ('one case = one observed run; one acceptor event per routing / class-change decision with the specification taken from the '
             'configuration, the uniform draw consumed and the true queue sizes at that instant; non-trivial = the run had >= 1 JSQ/LB decision '
             'with unequal lines or >= 2 router kinds and >= 10 decisions; distinct = distinct configuration hashes')
